@@ -97,7 +97,7 @@ def condition_rules(chk, P):
     if b is not None:
         c0 = P.body(CHECKS[3] + "::{closure#0}")
         p0 = tab.predicate_table(P, c0) if c0 else set()
-        N = "some!(Iterator::next(IntoIterator::into_iter(Vec::drain(self.expected_inputs, ops::RangeFull{})))).0"
+        N = "some!(Iterator::next(Vec::drain(self.expected_inputs, ops::RangeFull{}))).0"
         S = "elem([T]::iter(signals))"
         want = {(frozenset([("Eq(%s.name, %s)" % (S, N), True)]), "Signal::is_input(%s)" % S), (frozenset([("Ne(%s.name, %s)" % (S, N), True)]), "0")}
         anyc = [[canon(x) for x in P.call_arg_terms(b, bb)] for bb, t in b.calls() if callee_name(t)[0].endswith("Iterator>::any")]
@@ -111,7 +111,7 @@ def condition_rules(chk, P):
     if b is not None:
         c0 = P.body(CHECKS[4] + "::{closure#0}")
         p0 = tab.predicate_table(P, c0) if c0 else set()
-        N = "some!(Iterator::next(IntoIterator::into_iter(Vec::drain(self.read_outputs, ops::RangeFull{})))).0"
+        N = "some!(Iterator::next(Vec::drain(self.read_outputs, ops::RangeFull{}))).0"
         S = "elem([T]::iter(signals))"
         want = {(frozenset([("Eq(%s.name, %s)" % (S, N), True)]), "Signal::is_output(%s)" % S), (frozenset([("Ne(%s.name, %s)" % (S, N), True)]), "0")}
         posc = [[canon(x) for x in P.call_arg_terms(b, bb)] for bb, t in b.calls() if callee_name(t)[0].endswith("Iterator>::position") and canon(P.call_arg_terms(b, bb)[0]) == "[T]::iter(signals)"]
@@ -128,7 +128,7 @@ def condition_rules(chk, P):
         c1 = P.body(fn + "::{closure#1}")
         if c1 is None:
             continue
-        N = "some!(Iterator::next(IntoIterator::into_iter(Vec::drain(self.%s, ops::RangeFull{})))).0" % field
+        N = "some!(Iterator::next(Vec::drain(self.%s, ops::RangeFull{}))).0" % field
         pt = tab.predicate_table(P, c1)
         chk.require(tab.same_function(pt, {(frozenset(), "PartialEq<&B> for &A>::eq(elem([T]::iter(self.signals)), %s)" % N)}, bool_result=True), "TAB", "TAB:%s:error-names-the-column-of-that-name" % fn.split("::")[-1],
                     "the reported column is the header column with the identifier's own name", "the header column for the error is selected by %s" % sorted(pt, key=str))
@@ -155,7 +155,7 @@ def condition_rules(chk, P):
         hb = [bb for bb, t in b.calls() if callee_name(t)[0].endswith("Iterator>::next")]
         if not chk.anchor("%s loop header" % tag, len(hb) == 1):
             continue
-        NX = "variant(Iterator::next(IntoIterator::into_iter(Vec::drain(self.%s, ops::RangeFull{}))))" % field
+        NX = "variant(Iterator::next(Vec::drain(self.%s, ops::RangeFull{})))" % field
         POS = "variant(Iterator::position([T]::iter(self.signals), closure({closure#1})))"
         neg = (dec[0], False) if dec[1] is True else (dec[0], ("None",))
         rows = set((r[0], r[2]) for r in tab.iteration_table(P, b, hb[0]) if r[2] != "unreachable")
